@@ -26,16 +26,27 @@ public:
   ASMJIT_INLINE_NODEBUG explicit CodeWriter(BaseAssembler* a) noexcept
     : _cursor(a->_buffer_ptr) {}
 
+  //! Ensures that at least `n` bytes can be written - doesn't report a failure, which is up to the caller (an emitter
+  //! has to clear its one-shot instruction state before the error handler is invoked).
   [[nodiscard]]
-  ASMJIT_INLINE Error ensure_space(BaseAssembler* a, size_t n) noexcept {
+  ASMJIT_INLINE Error ensure_space_unreported(BaseAssembler* a, size_t n) noexcept {
     size_t remaining_space = (size_t)(a->_buffer_end - _cursor);
     if (ASMJIT_UNLIKELY(remaining_space < n)) {
       CodeBuffer& buffer = a->_section->_buffer;
       Error err = a->_code->grow_buffer(&buffer, n);
       if (ASMJIT_UNLIKELY(err != Error::kOk)) {
-        return a->report_error(err);
+        return err;
       }
       _cursor = a->_buffer_ptr;
+    }
+    return Error::kOk;
+  }
+
+  [[nodiscard]]
+  ASMJIT_INLINE Error ensure_space(BaseAssembler* a, size_t n) noexcept {
+    Error err = ensure_space_unreported(a, n);
+    if (ASMJIT_UNLIKELY(err != Error::kOk)) {
+      return a->report_error(err);
     }
     return Error::kOk;
   }
